@@ -295,6 +295,121 @@ func genC15Op(r *Rng, paths []string) Op {
 	return Op{Kind: "readfile", P: p}
 }
 
+// c15Anomaly returns a schedule and outcome of prog that no sequential order produces ("" if none was found).
+func c15Anomaly(prog cProg, budget int) (string, []int, int) {
+	outcomes, _, _, _ := exploreAll(prog, budget)
+	seq := sequentialOutcomes(prog)
+	var keys []string
+	for k := range outcomes {
+		keys = append(keys, k)
+	}
+	sort.Strings(keys)
+	for _, k := range keys {
+		if !seq[k] {
+			return k, outcomes[k], len(seq)
+		}
+	}
+	return "", nil, len(seq)
+}
+
+// c15InitialKind tells what a path is in the tree every C15 program starts from.
+func c15InitialKind(p string) string {
+	fs := newMem()
+	c15Setup(fs)
+	info, err := hackpadfs.Stat(fs, p)
+	switch {
+	case err != nil:
+		return "N"
+	case info.IsDir():
+		return "D"
+	}
+	return "F"
+}
+
+// c15ReportAnomaly shrinks a program with a non-sequential outcome to a minimal one (removing any operation
+// makes every outcome sequential) and reports it; the signature is the shape of that minimal witness: the
+// operation kinds with what their paths are in the initial tree (F file, D directory, N absent).
+func c15ReportAnomaly(c *Case, prog cProg, budget int) {
+	cur := prog
+	for changed := true; changed; {
+		changed = false
+		for g := range cur {
+			for i := range cur[g] {
+				var cand cProg
+				for g2 := range cur {
+					var ops []Op
+					for i2, o := range cur[g2] {
+						if g2 == g && i2 == i {
+							continue
+						}
+						ops = append(ops, o)
+					}
+					if len(ops) > 0 {
+						cand = append(cand, ops)
+					}
+				}
+				if len(cand) < 2 {
+					continue
+				}
+				if k, _, _ := c15Anomaly(cand, budget); k != "" {
+					cur, changed = cand, true
+					break
+				}
+			}
+			if changed {
+				break
+			}
+		}
+	}
+	k, sched, nseq := c15Anomaly(cur, budget)
+	if k == "" { // cannot happen: cur kept an anomaly at every step
+		cur = prog
+		k, sched, nseq = c15Anomaly(cur, budget)
+	}
+	var toks []string
+	for _, ops := range cur {
+		for _, o := range ops {
+			t := o.Kind + ":" + c15InitialKind(o.P)
+			if o.Kind == "rename" {
+				t += c15InitialKind(o.Q)
+			}
+			toks = append(toks, t)
+		}
+	}
+	sort.Strings(toks)
+	c.fail(fmt.Sprintf("program %s (minimised from %s) under schedule %v ends with [%s], which no sequential order of the operations produces (sequential outcomes: %d)", cur, prog, sched, k, nseq),
+		c.Kind+":not-sequential:"+strings.Join(toks, "+"))
+}
+
+// c15ObserverPrograms: [one mutation] || [stat p; stat q] over the paths the mutation touches.
+func c15ObserverPrograms(r *Rng, n int) []cProg {
+	muts := []Op{
+		{Kind: "rename", P: "f", Q: "x"}, {Kind: "rename", P: "f", Q: "d/x"}, {Kind: "rename", P: "e/g", Q: "x"},
+		{Kind: "rename", P: "f", Q: "e/g"}, {Kind: "rename", P: "e/g", Q: "f"}, {Kind: "rename", P: "e", Q: "x"}, {Kind: "rename", P: "d", Q: "x"},
+		{Kind: "mkdir", P: "x", Perm: 0o755}, {Kind: "mkdir", P: "d/x", Perm: 0o755},
+		{Kind: "remove", P: "f"}, {Kind: "remove", P: "d"}, {Kind: "remove", P: "e/g"},
+		{Kind: "chmod", P: "f", Perm: 0o600}, {Kind: "chmod", P: "d", Perm: 0o700},
+		{Kind: "writefile", P: "x", Data: []byte{7}, Perm: 0o644}, {Kind: "writefile", P: "f", Data: []byte{7}, Perm: 0o644},
+	}
+	var out []cProg
+	for i := 0; i < n; i++ {
+		m := muts[(i+r.Intn(2))%len(muts)]
+		a, b := m.P, m.P
+		if m.Kind == "rename" {
+			b = m.Q
+		}
+		if r.Intn(2) == 0 {
+			a, b = b, a
+		}
+		obs := []Op{{Kind: "stat", P: a}, {Kind: "stat", P: b}}
+		if r.Intn(3) == 0 {
+			obs[r.Intn(2)].Kind = "readfile"
+		}
+		out = append(out, cProg{{m}, obs})
+	}
+	return out
+}
+
 func pathsOf(prog []Op) map[string]bool {
 	m := map[string]bool{}
 	for _, o := range prog {
@@ -347,19 +462,31 @@ func runC15(r *Rng, n int, replay string) {
 		sort.Strings(keys)
 		for _, k := range keys {
 			if !seq[k] {
-				var kinds []string
-				for _, ops := range prog {
-					for _, o := range ops {
-						kinds = append(kinds, o.Kind)
-					}
-				}
-				sort.Strings(kinds)
-				c.fail(fmt.Sprintf("program %s under schedule %v ends with [%s], which no sequential order of the operations produces (sequential outcomes: %d)", prog, outcomes[k], k, len(seq)),
-					c.Kind+":not-sequential:"+strings.Join(uniq(kinds), "+"))
+				c15ReportAnomaly(c, prog, budget)
 				break
 			}
 		}
 		emit(c)
+	}
+	// single-mutation atomicity: one goroutine performs one mutation, the other looks twice
+	if replay != "noobs" {
+		for k, prog := range c15ObserverPrograms(r, n/3+6) {
+			c := &Case{ID: 5000 + k, Kind: "shared"}
+			outcomes, runs, problem, complete := exploreAll(prog, 600)
+			seq := sequentialOutcomes(prog)
+			c.Text = []string{fmt.Sprintf("program %s: %d schedules explored (complete=%v), %d distinct outcomes, %d sequential outcomes", prog, runs, complete, len(outcomes), len(seq))}
+			c.Cells = []string{"observer/g2"}
+			if problem != "" {
+				c.fail(fmt.Sprintf("program %s: %s", prog, problem), "shared:liveness")
+			}
+			for k := range outcomes {
+				if !seq[k] {
+					c15ReportAnomaly(c, prog, 600)
+					break
+				}
+			}
+			emit(c)
+		}
 	}
 	// programs over the model's alphabet (Mkdir, Remove, Stat), explored completely: the set of outcomes vs the model's
 	for k := 0; k < n/2+4; k++ {
